@@ -10,7 +10,7 @@
  * Everything that is not a pool slot (the tracker's own table array, stdio, this harness) goes to the real
  * (ASan) allocator, so the table array sits in an exact-size ASan block.
  *
- * State token: {blocks=[never|live|freed,...],level=n,sizes=[allocator-side size of each live block],table=[{file=[codes],id=n,line=n,size=n},...]}
+ * State token: {after=ok|refused,blocks=[never|live|freed,...],level=n,sizes=[allocator-side size of each live block],table=[{file=[codes],id=n,line=n,size=n},...]}
  *   blocks = the allocator-side view of the pool (what the library really obtained / released),
  *   table  = the tracker's private table read through spifmem_verif_malloc_rec(), address -> slot id.
  * The table is compared as a SET: records are listed in the order in which their ids occur in the expected
@@ -73,6 +73,13 @@ static size_t size_arg(const char *tok) {          /* -1 = SIZE_MAX, -2 = 2^62, 
     if (v >= 0) return (size_t) v;
     return v == -1 ? (size_t) -1 : (v == -2 ? ((size_t) 1 << 62) : ((size_t) 1 << 63));
 }
+
+static size_t count_arg(const char *tok, size_t esize) {       /* calloc counts whose product with esize exceeds SIZE_MAX */
+    long v = vh_int(tok); size_t q = ((size_t) -1) / esize + 1;   /* smallest count that overflows: ceil(2^64 / esize) */
+    if (v > -10) return size_arg(tok);
+    return v == -11 ? q + (((size_t) -1) % esize == esize - 1 ? 1 : 0) : (v == -12 ? q : (v == -13 ? q + 3 : q));
+}
+static int last_refused;          /* the previous tracked call was a refused request (the specification's `after`) */
 
 void *__wrap_malloc(size_t n) {
     int t;
@@ -158,7 +165,7 @@ static const char *project(const char *exp_state, vh_sb *out) {
     spifmem_memrec_t *mr = spifmem_verif_malloc_rec();
     size_t cnt = mr->cnt, k; int i, ord[64], nord, done[64];
     static int ids[64];
-    sb_puts(out, "{blocks=[");
+    sb_printf(out, "{after=%s,blocks=[", last_refused ? "refused" : "ok");
     for (i = 1; i <= nslot; i++) { if (i > 1) sb_putc(out, ','); sb_puts(out, stname(slot[i].status)); }
     sb_printf(out, "],level=%u,sizes=[", libast_debug_level);
     for (i = 1; i <= nslot; i++) { if (i > 1) sb_putc(out, ','); sb_int(out, slot[i].status == S_LIVE ? (long) slot[i].size : 0); }
@@ -198,7 +205,7 @@ static void vh_begin(void) {
     int i;
     for (i = 1; i <= nslot; i++) { slot[i].status = S_NEVER; slot[i].size = 0; POISON(slot[i].base, CAP); }
     libast_debug_level = level;
-    armed = 0; want_target = 0; foreign = NULL; nstray = 0; anomaly = NULL;
+    armed = 0; want_target = 0; foreign = NULL; nstray = 0; anomaly = NULL; last_refused = 0;
 }
 static void vh_end(void) {
     int i; spifmem_memrec_t *mr = spifmem_verif_malloc_rec();
@@ -233,6 +240,7 @@ static const char *vh_step(const vh_step_t *st, vh_sb *ret, vh_sb *state) {
     const char *op = st->op, *inv = NULL;
     char *file = NULL;
     anomaly = NULL; stale_free = 0; foreign_freed = 0; want_target = 0; nstray = 0; foreign = NULL; leaked = NULL;
+    last_refused = (st->nargs > 1 && st->args[1][0] == '-' && (OP("malloc") || OP("calloc") || OP("realloc")));
 
     if (OP("malloc")) {
         void *p;
@@ -244,7 +252,7 @@ static const char *vh_step(const vh_step_t *st, vh_sb *ret, vh_sb *state) {
         unsigned char *p; size_t n = vh_int(st->args[1]) < 0 ? 0 : (size_t) (vh_int(st->args[1]) * vh_int(st->args[2])), k;
         file = file_arg(st->args[3]);
         want_target = (int) vh_int(st->args[0]);
-        armed = 1; p = (unsigned char *) spifmem_calloc(file, (unsigned long) vh_int(st->args[4]), size_arg(st->args[1]), (size_t) vh_int(st->args[2])); armed = 0;
+        armed = 1; p = (unsigned char *) spifmem_calloc(file, (unsigned long) vh_int(st->args[4]), count_arg(st->args[1], (size_t) vh_int(st->args[2])), (size_t) vh_int(st->args[2])); armed = 0;
         ret_ptr(ret, p);
         if (p && slot_of(p)) for (k = 0; k < n; k++) if (p[k]) inv = "calloc_block_not_zeroed";
     } else if (OP("strdup")) {
